@@ -357,6 +357,42 @@ def run_eq(ctx, case):
   return True
 
 
+def run_substitution(ctx, case, f, fs, mf, g, mg, sub_kind):
+  """f(g) as a rational function against the model's mf(mg(z)) at rational
+  points.  -> False after a violation."""
+  if not mg.num:
+    return True
+  ginv = RF.const(1) / mg
+  sub_den = RF({})
+  for kk, a in enumerate(fs[1]):
+    sub_den = sub_den + RF.const(a) * ginv ** kk
+  sub_real = f(g) if sub_den.num else None   # else: division by zero
+  if sub_real is not None:
+    rs = rf_of(sub_real)
+    done = 0
+    for z0 in [Fraction(2), Fraction(-3, 2), Fraction(5, 3), Fraction(1, 4),
+               Fraction(-7, 5)]:
+      g0 = mg.value(1 / z0)
+      if g0 is None or g0 == 0:
+        continue
+      wantv = mf.value(1 / g0)
+      gotv = rs.value(1 / z0)
+      if wantv is None or gotv is None:
+        continue
+      done += 1
+      # g ** -k goes through int ** negative -> float: toleranced comparison
+      tol = 1e-9 * max(1, abs(wantv))
+      ctx.err("substitution", float(abs(gotv - wantv)), float(tol))
+      if abs(gotv - wantv) > tol:
+        ctx.violation("substitution/wrong-value", case, z0=str(z0),
+                      got=str(gotv), want=str(wantv), g=sub_kind)
+        return False
+    if done:
+      ctx.count("substitution-points-compared", done)
+      ctx.count("substitution:" + sub_kind)
+  return True
+
+
 def run_alg(ctx, case):
   _, fs, gs, hs, c, n, xlen, k = case
   f, g, h = mk(fs), mk(gs), mk(hs)
@@ -518,34 +554,19 @@ def run_alg(ctx, case):
           key = "parallel/numpoly-of-sum-with-denpoly-of-product"
       ctx.violation(key, case, got=repr(r), want=repr(mdl))
       return True
-  # substitution f(g): evaluate at rational points
-  ginv = RF.const(1) / mg
-  sub_den = RF({})
-  for kk, a in enumerate(fs[1]):
-    sub_den = sub_den + RF.const(a) * ginv ** kk
-  sub_real = f(g) if sub_den.num else None   # else: division by zero
-  if sub_real is not None:
-    rs = rf_of(sub_real)
-    done = 0
-    for z0 in [Fraction(2), Fraction(-3, 2), Fraction(5, 3), Fraction(1, 4),
-               Fraction(-7, 5)]:
-      g0 = mg.value(1 / z0)
-      if g0 is None or g0 == 0:
-        continue
-      wantv = mf.value(1 / g0)
-      gotv = rs.value(1 / z0)
-      if wantv is None or gotv is None:
-        continue
-      done += 1
-      # g ** -k goes through int ** negative -> float: toleranced comparison
-      tol = 1e-9 * max(1, abs(wantv))
-      ctx.err("substitution", float(abs(gotv - wantv)), float(tol))
-      if abs(gotv - wantv) > tol:
-        ctx.violation("substitution/wrong-value", case, z0=str(z0),
-                      got=str(gotv), want=str(wantv))
-        return True
-    if done:
-      ctx.count("substitution-points-compared", done)
+  # substitution f(g): evaluate at rational points; besides the random g, a g
+  # of a special shape (scaled delay / advance, z / c, bilinear map, ...): an
+  # implementation may treat monomials separately
+  shapes = [([0, c], [1]), ([0, 0, c], [1]), ([c], [0, 1]), ([0, 1], [c]),
+            ([1, -1], [1, 1]), ([c, 1], [1]), ([0, 0, 0, c], [1]),
+            ([c], [0, 0, 1]), ([0, -1], [1]), ([2], [0, 1])]
+  special = shapes[(n + k + xlen) % len(shapes)]
+  subs = [("random", g, mg)]
+  if c != 0:
+    subs.append(("special", mk(special), model(special)))
+  for sub_kind, g_, mg_ in subs:
+    if not run_substitution(ctx, case, f, fs, mf, g_, mg_, sub_kind):
+      return True
   # the operand objects were used by every expression above: they must be
   # exactly what they were (same polynomials, same behaviour)
   for name, obj, spec, mdl in (("f", f, fs, mf), ("g", g, gs, mg),
@@ -591,6 +612,8 @@ def finish(ctx):
             "substitution-points-compared", "equal-pairs-hash-compared",
             "linearize-compared"]:
     ctx.need(k, 50)
+  ctx.need("substitution:random", 50)
+  ctx.need("substitution:special", 50)
   for how in ["same", "num-only", "den-only", "other"]:
     ctx.need("eq-pair:" + how, 50)
   for n in range(5):
